@@ -38,9 +38,15 @@ ATTRS = {
     "stop-offset": lambda v: f'<defs><linearGradient id="lg"><stop id="s" offset="{v}" stop-color="red"/></linearGradient></defs><rect x="0" y="0" width="2" height="2"/>',
     "font-size": lambda v: f'<text id="s" x="1" y="3" font-size="{v}">label</text>',
     "line-end-only": lambda v: f'<line id="s" x2="{v}" y2="3"/><line x1="{v}" y2="4"/>',
+    # positioned along ONE axis only: the other keeps its default
+    "ellipse-cx": lambda v: f'<ellipse id="s" cx="{v}" rx="3" ry="2"/>',
+    "ellipse-cy": lambda v: f'<ellipse id="s" cy="{v}" rx="3" ry="2"/>',
+    "circle-cy": lambda v: f'<circle id="s" cy="{v}" r="2"/>',
+    "rect-y": lambda v: f'<rect id="s" y="{v}" width="5" height="4"/>',
+    "line-y1": lambda v: f'<line id="s" y1="{v}" x2="4" y2="4"/>',
     "use-x": lambda v: f'<rect id="t" x="0" y="0" width="3" height="3"/><use id="s" href="#t" x="{v}" y="2"/>',
 }
-ATTR_NAME = {"line-end-only": "x2", "use-x": "x", "root-width": "width",
+ATTR_NAME = {"ellipse-cx": "cx", "ellipse-cy": "cy", "circle-cy": "cy", "rect-y": "y", "line-y1": "y1", "line-end-only": "x2", "use-x": "x", "root-width": "width",
              "rect-x": "x", "rect-width": "width", "circle-r": "r", "line-x2": "x2", "stroke-width": "stroke-width", "text-x": "x",
              "stop-offset": "offset", "font-size": "font-size"}
 
